@@ -1229,11 +1229,16 @@ fn run_e2e(pwb: u64, pwa: u64, msg: &str, how: &str, at: u64, wop: &str) -> E2eO
         )
         .coalesce();
         let flow = async {
-            let r: Result<(), Error> = async {
+            // the initiator has no timeout of its own for an answer that never comes
+            let r: Result<(), Error> = match e2e::with_timeout(2500, async {
                 let ex = Exchange::initiate_plaintext(matter_a, &crypto, e2e::node_addr(B)).await?;
                 PaseInitiator::perform(ex, &crypto, passcode(pwa)).await
-            }
-            .await;
+            })
+            .await
+            {
+                Some(r) => r,
+                None => Err(ErrorCode::RxTimeout.into()),
+            };
             // let the device finish (its handler may still wait for an acknowledgement)
             let mut waited = 0;
             loop {
@@ -1281,7 +1286,8 @@ fn run_e(f: &[&str]) -> String {
     let wop = field(f, "wop");
     if how.starts_with("other") && OTHER.with(|o| o.borrow().is_none()) {
         // a plain run first: its values are substituted into this one
-        let r = run_e2e(pwb, pwb, "none", "", 3, "none");
+        // (the test crypto's random numbers repeat from run to run: another passcode gives other values)
+        let r = run_e2e(3, 3, "none", "", 3, "none");
         OTHER.with(|o| *o.borrow_mut() = Some(r.seen));
     }
     let r = run_e2e(pwb, pwa, msg, how, at, wop);
@@ -1660,7 +1666,8 @@ fn generate(tier: &str, seed: u64) -> (Vec<String>, BTreeMap<String, u64>) {
     muts.push(("p1", "zero:0".into(), "p1-invalid"));
     muts.push(("p1", "del:0".into(), "p1-invalid"));
     muts.push(("p1", "set:0".into(), "p1-invalid"));
-    muts.push(("p1", "dupf:0".into(), "p1-swapped"));
+    // the transcript covers the value of pA, not the bytes of Pake1: a repeated member changes nothing
+    muts.push(("p1", "dupf:0".into(), "none"));
     muts.push(("p1", "other".into(), "p1-swapped"));
     for n in [1usize, 4, 68] {
         muts.push(("p1", format!("trunc:{}", n), "p1-invalid"));
